@@ -3,6 +3,7 @@ import TsVerif.C03.DeriveLemmas
 import TsVerif.C03.LangLemmas
 import TsVerif.C03.DynLemmas
 import TsVerif.C03.PrattLemmas
+import TsVerif.C03.Sound
 import TsVerif.C03.Judge
 /-!
 # C03 — A generated parser recognises exactly its grammar and builds its derivation
@@ -102,6 +103,16 @@ theorem select_tree_prefers_lower_cost (l r : Cand) (hc : l.errorCost ≠ r.erro
   · have : l.errorCost < r.errorCost := by omega
     simp [h, this]
 
+/-- `driver_sound`: on a table that passes the decidable `rootSafe` (no transition enters the start
+state; accepting states are entered only from the start state) every tree the driver accepts — for
+ALL token strings — is a tree over the productions the table spells (`TreeOver`): each node
+`(A, production_id)` has as its non-extra children exactly the symbols `X₁ … Xₙ` of a path of `n`
+transitions into a state that carries the reduce action `(A, n, production_id)` (`IsProd`). -/
+theorem driver_sound (tbl : Table) (h1 : 1 < tbl.stateCount) (hroot : rootSafe tbl = true)
+    (toks : List Nat) (t : PTree) (h : run tbl toks = .accepted t) : TreeOver tbl t := by
+  unfold run at h
+  exact runLoop_sound tbl h1 hroot _ _ t (by simp [Spells]) h
+
 /-- `glr_yield`: for cells with several actions the model follows every action (`parseAll`); each
 accepting run yields a tree whose leaves are exactly the token string — in particular the tree
 `selectBest` keeps (`selectBest_mem`). -/
@@ -174,6 +185,7 @@ def tinyTable : Table :=
     lexState := #[0, 0, 0, 0] }
 
 example : tableClosed tinyTable = true := by decide
+example : rootSafe tinyTable = true ∧ 1 < tinyTable.stateCount := by decide
 example : (∀ a, a ∈ [1] → a ≠ 0) := by decide
 example : (match run tinyTable [1] with | .accepted t => t.leaves == [1, 0] | _ => false) = true := by decide
 example : (match run tinyTable [1, 1] with | .rejected _ => true | _ => false) = true := by decide
